@@ -121,17 +121,34 @@ def joint (req : Json) : R Reply := do
   let model := vfDefault masters dflt
   let obs ← field req "obs"
   let oerr ← asOpt asStr (← field obs "err")
-  let mj := Json.mkObj [("err", Json.null), ("contours", listJ (listJ ttPointJ) model)]
+  -- the non-default masters at whose locations the variable font was instantiated
+  let ks ← match i.getObjVal? "inst" with
+    | .ok j => asList asNat j
+    | .error _ => pure []
+  let mj := Json.mkObj [("err", Json.null), ("contours", listJ (listJ ttPointJ) model),
+    ("inst", listJ (fun k => Json.arr #[natJ k, listJ (listJ ttPointJ) (vfMaster masters dflt k)]) ks)]
   match oerr with
   | some _ => return { model := mj, holds := false }
   | none =>
     let cs ← asList (asList asTTPoint) (← field obs "contours")
     let gv ← asList asNat (← field obs "gvar")
+    let insts ← match obs.getObjVal? "inst" with
+      | .ok j => asList (asPair asNat (asList (asList asTTPoint))) j
+      | .error _ => pure []
     let npts := (cs.map List.length).foldl (· + ·) 0
     -- every variation tuple addresses exactly the points that are left (+ 4 phantom points)
     let gvOk := gv.all (fun k => k == npts + 4)
     let dropped := ((masters.getD dflt []).map List.length).foldl (· + ·) 0 - npts
-    return { model := mj, holds := holdsJoint masters dflt cs && gvOk, info := natJ dropped }
+    let simple := simpleMasters masters
+    let compatible := simple.all (fun g => shape g == shape (simple.headD []))
+    -- "dropping jointly keeps every master's outline", end to end: the instance at master k's location is master k's own
+    -- points (those the default entry's flags pick), rounded, within 1 unit
+    let instOk := !compatible || (masters.getD dflt []).isEmpty ||
+      insts.all (fun e => (masters.getD e.1 []).isEmpty || holdsInstance 1 (masters.getD e.1 []) cs e.2)
+    let hj := holdsJoint masters dflt cs
+    let why := (if hj then [] else ["joint"]) ++ (if gvOk then [] else ["gvar-count"]) ++ (if instOk then [] else ["instance"])
+    return { model := mj, holds := hj && gvOk && instOk,
+             info := Json.mkObj [("dropped", natJ dropped), ("why", strsJ why)] }
 
 def handle (op : String) (req : Json) : R Reply :=
   match op with
